@@ -117,12 +117,18 @@ func (ft *FieldNameMap) Build() {
 	var idealPos = -1
 	var min = defaultMaxBucketSize
 	var count = len(ft.all)
+	// the most dispersive position even if it is worse than defaultMaxBucketSize
+	var bestPos, bestSize = -1, float64(count + 1)
 
 	for i := ft.maxKeyLength - 1; i >= 0; i-- {
 		cd := positionDispersion[i]
 		l := len(cd)
 		// calculate the dispersion (average bucket size)
 		f := float64(count) / float64(l)
+		if f < bestSize {
+			bestSize = f
+			bestPos = i
+		}
 		if f < min {
 			min = f
 			idealPos = i
@@ -131,6 +137,11 @@ func (ft *FieldNameMap) Build() {
 		if min == 1 {
 			break
 		}
+	}
+
+	if idealPos == -1 && bestPos != -1 && !hashable(ft.all) {
+		// some key cannot be stored in caching.HashMap: use the trie anyway
+		idealPos = bestPos
 	}
 
 	if idealPos != -1 {
@@ -164,6 +175,23 @@ func (ft *FieldNameMap) Build() {
 			ft.hash.Set("", empty)
 		}
 	}
+}
+
+// hashable tells if every key can be stored in (and found again by both lookups of) caching.HashMap:
+//   - an entry whose DJB hash is 0 looks like an empty slot, so such a key is never found;
+//   - the native twin (hm_get) hashes bytes >= 0x80 as signed chars, so it never finds such a key.
+func hashable(all []caching.Pair) bool {
+	for _, v := range all {
+		if caching.DJBHash32(v.Key) == 0 {
+			return false
+		}
+		for i := 0; i < len(v.Key); i++ {
+			if v.Key[i] >= 0x80 {
+				return false
+			}
+		}
+	}
+	return true
 }
 
 // FieldIDMap is a map from field id to field descriptor
